@@ -353,12 +353,27 @@ public:
         m_deferred_writes.push_back(FileWrite { std::move(file), destination_path, std::move(permission_callback) });
     }
 
+    void deferred_remove(const std::string& path)
+    {
+        m_deferred_removals.push_back(path);
+    }
+
     void finalize()
     {
         for (auto& deferred_write : m_deferred_writes) {
             File file(deferred_write.destination_path, std::ios_base::out | std::ios::trunc);
             deferred_write.source.write_entire_contents_to(file);
             deferred_write.permission_callback(deferred_write.destination_path);
+        }
+
+        // Only once everything has been written is it safe to remove where it was moved from.
+        for (const auto& path : m_deferred_removals) {
+            // Unless something else has since been written there (such as when two files are swapped).
+            const bool was_written_to = std::any_of(m_deferred_writes.begin(), m_deferred_writes.end(), [&](const FileWrite& write) {
+                return write.destination_path == path;
+            });
+            if (!was_written_to)
+                remove_file_and_empty_parent_folders(path);
         }
     }
 
@@ -370,6 +385,7 @@ private:
     };
 
     std::vector<FileWrite> m_deferred_writes;
+    std::vector<std::string> m_deferred_removals;
 };
 
 struct PermissionResult {
@@ -646,8 +662,13 @@ int process_patch(const Options& options)
             }
 
             if (result.failed_hunks == 0) {
-                if (write_to_file && patch.operation == Operation::Rename)
-                    remove_file_and_empty_parent_folders(file_to_patch);
+                if (write_to_file && patch.operation == Operation::Rename) {
+                    // The new file of a git patch has not been written yet, the old one must outlive that.
+                    if (patch.format == Format::Git)
+                        deferred_writer.deferred_remove(file_to_patch);
+                    else
+                        remove_file_and_empty_parent_folders(file_to_patch);
+                }
             }
         }
     }
